@@ -15,7 +15,7 @@
 From Coq Require Import QArith Qabs.
 From DS Require Import Base.Prelude Model.TDigest Spec.TDigestSpec.
 From DS Require Import Proofs.TDigestProofsBase Proofs.TDigestProofsRank Proofs.TDigestProofsQuantile
-  Proofs.TDigestProofsConsist Proofs.TDigestProofsCdf Proofs.TDigestProofsMerge Proofs.TDigestProofsInproc.
+  Proofs.TDigestProofsConsist Proofs.TDigestProofsBlocks Proofs.TDigestProofsCdf Proofs.TDigestProofsMerge Proofs.TDigestProofsInproc.
 Open Scope Q_scope.
 
 (* ---------------- rank ---------------- *)
@@ -105,8 +105,31 @@ Theorem c10_rank_quantile_consistent : forall v, wf_view v -> strictP (v_cs v) -
   Qabs (rho - q) <= resolution v q.
 Proof. exact rank_quantile_consistent. Qed.
 
+(* EVERY well-formed view, centroids sharing a mean included (no strictP): the error is at most the weight
+   of ALL centroids that share a mean with one of the two straddling centroids, over the total
+   ([block_resolution], Spec/TDigestSpec.v; constant 1).  The constant 1/2 of the theorem above does not
+   survive duplicate means: centroids (5,w10) (5,w1) with min = 5 give rank (quantile 0) = 7.75/total. *)
+Theorem c10_rank_quantile_consistent_any_means : forall v, wf_view v ->
+  forall q x rho, 0 <= q -> q <= 1 -> quantile v q = Ok (Some x) -> rank v x = Ok (Some rho) ->
+  Qabs (rho - q) <= block_resolution v q.
+Proof. exact consist_blocks. Qed.
+
 Theorem c10_resolution_at_most_half : forall v, wf_view v -> forall q, resolution v q <= 1 # 2.
 Proof. exact resolution_le_half. Qed.
+
+(* non-vacuity of the duplicate-means bound, and the 1/2 constant failing there: total 12,
+   quantile 0 = 5, rank 5 = 7.75/12, block_resolution = 11/12, half of it would be 5.5/12 *)
+Definition dup_view : view := mkView 5 9 [(5, 10%positive); (5, 1%positive); (9, 1%positive)] 12.
+Example c10_example_duplicate_means :
+  wf_view dup_view /\ ~ strictP (v_cs dup_view) /\
+  exists x rho, quantile dup_view 0 = Ok (Some x) /\ rank dup_view x = Ok (Some rho) /\
+                rho == 31 # 48 /\ block_resolution dup_view 0 == 11 # 12 /\ (1 # 2) * block_resolution dup_view 0 < Qabs (rho - 0).
+Proof.
+  split; [constructor; cbn; try discriminate; try reflexivity; repeat split; apply Qle_bool_iff; reflexivity|].
+  split; [cbn; intros [H _]; revert H; apply Qle_not_lt; apply Qle_bool_iff; reflexivity|].
+  eexists. eexists. split; [vm_compute; reflexivity|]. split; [vm_compute; reflexivity|].
+  split; [reflexivity|]. split; [vm_compute; reflexivity|]. vm_compute. reflexivity.
+Qed.
 
 (* ---------------- total_weight, min, max of in-process digests ---------------- *)
 (* [reach h d] (Spec/TDigestSpec.v): d is a state of TDigestMut after history h (update / any
